@@ -21,6 +21,16 @@ CHECKS = {
          "Every closed ring of 3-4 free vertices on a small integer grid, every polyline of <=3 grid points, and every sequence of <=3 rings/polygons/lines over menus that include empty rings, empty polygons and degenerate rings, in 6 layouts and exact power-of-two scalings, has Area and Length computed by the real methods and compared with exact rational shoelace sums and 256-bit square-root sums under a forward error bound; additivity is checked against the part accessors and panics are violations.",
          "Bounded: <=3 parts, grid 4x4, scalings 2^-100..2^200. Area compared on closed rings only. Trusted: math/big.",
          "DESIGN.md section 2, C09"),
+ "C08": ("model_checking",
+         "explicit-state BFS over Extend histories on real Bounds values plus exhaustive enumeration of geometries and box pairs against a per-dimension reference fold",
+         "Bounds() of every geometry of the shape universe and of every collection of <=3 members (mixed layouts, empty members, nested collections) is compared per semantic dimension (X,Y,Z,M located via ZIndex/MIndex) with a reference fold, together with IsEmpty, Bounds.Polygon and the GeoJSON bbox; all Extend histories up to depth 4/5 from five start layouts over a 12-geometry alphabet are executed on real Bounds values, each reached state compared with the fold over its multiset and with every other order reaching that multiset; Overlaps/OverlapsPoint are compared with closed-interval arithmetic on all pairs of small boxes incl. empty ones.",
+         "Bounded: depth <=5, layouts XY/XYZ/XYM/XYZM in mixes, no NaN. IsEmpty is only demanded for 'no coordinates' and 'data in every dimension'.",
+         "DESIGN.md section 2, C08"),
+ "C16": ("model_checking",
+         "exhaustive enumeration of mutation histories (depth-bounded) on clone/original pairs of real geometries with full storage-state comparison",
+         "For every geometry of the shape universe (three constructions incl. spare capacity and empty-non-nil slices), Coord and Bounds: the clone equals the original (type, layout, SRID, structure, bits), and after every step of every mutation history up to depth 2/3 over 7 mutators x {original, clone} the complete storage state (incl. spare-capacity contents) of the side not operated on is unchanged.",
+         "Bounded: depth <=3, universe shapes. nil-vs-empty identity of clone slices not demanded.",
+         "DESIGN.md section 2, C16"),
 }
 
 def main():
